@@ -72,13 +72,17 @@ def _weight(t):
     return 40 + len(t["ev"]) * max(1, t.get("w", 1))
 
 
-def validate(traces, timeout=3000, coverage=False):
+TLC_TIMEOUT = 3000      # seconds per TLC process (props/c03.py raises it for the thorough tier)
+
+
+def validate(traces, timeout=None, coverage=False):
     """Validate `traces` with SVSemTrace in parallel single-worker TLC processes; chunks balanced by
     design size x cycles.  Returns (runs, [((err, pos), info)]).
     (TLC's -coverage instrumentation slows the deeply recursive interpreter down by orders of magnitude,
     so it is switched on only for the small dedicated run of check_coverage.)"""
     if not traces:
         return [], []
+    timeout = timeout or TLC_TIMEOUT
     ncpu = min(os.cpu_count() or 4, 16)
     order = sorted(range(len(traces)), key=lambda i: -_weight(traces[i]))
     total = sum(_weight(t) for t in traces)
